@@ -23,7 +23,12 @@ def _escape_literal(value):
     """
     Escapes a search value for use inside a double quoted SPARQL string literal.
     """
-    escaped = str(value).replace("\\", "\\\\").replace("\"", "\\\"")
+    # SPARQL replaces code point escapes (a backslash, 'u' or 'U' and hex digits) in the
+    # whole query text before it reads string literals. A backslash of the value that
+    # is followed by 'u' and four hex digits would be taken for such an escape even
+    # when it is doubled, so every backslash of the value is itself written as the
+    # code point escape of two backslashes, which then reads as one backslash.
+    escaped = str(value).replace("\\", "\\u005C\\u005C").replace("\"", "\\\"")
     return escaped.replace("\n", "\\n").replace("\r", "\\r").replace("\t", "\\t")
 
 
